@@ -186,6 +186,37 @@ theorem dbRevive_ok (db : DB) (hwf : DBWF db) (h : DBCtrOK db) (cn id : Nat) : D
               (fun k hk => by simp only; exact reviveCtr_typed _ id k hk) hd
       · exact h
 
+/-- the forced recount (`SyncCounters`) establishes the invariant from the index alone -/
+theorem syncCounters_ok (c : Cnr) (hr : ∀ r ∈ c.recs, r.root = true → r.typ = .regular) : CtrOK c.syncCounters := by
+  unfold Cnr.syncCounters
+  by_cases hg : c.gcMark
+  · simp only [hg, if_true]
+    refine ⟨?_, hr⟩
+    intro k hk
+    match k, hk with
+    | 0, _ | 1, _ | 2, _ | 3, _ | 4, _ => simp [getC]
+  · simp only [hg, Bool.false_eq_true, if_false]
+    refine ⟨?_, hr⟩
+    intro k hk
+    match k, hk with
+    | 0, _ | 1, _ | 2, _ | 3, _ | 4, _ => simp only [getC, List.countP_eq_length_filter]; rfl
+
+theorem dbSyncCounters_ok (db : DB) (h : DBCtrOK db) : DBCtrOK (dbSyncCounters db) := by
+  intro b hb
+  unfold dbSyncCounters at hb
+  rw [List.mem_map] at hb
+  obtain ⟨b0, hb0, rfl⟩ := hb
+  exact syncCounters_ok b0.2 (h b0 hb0).rootReg
+
+/-- **The recount agrees with the incrementally kept typed counters**: after any history of valid objects a
+forced `SyncCounters` changes none of PHY, ROOT, TS, LOCK, LINK. -/
+theorem recount_agrees (c : Cnr) (h : CtrOK c) (k : Nat) (hk : k < 5) : getC k c.syncCounters.ctr = getC k c.ctr := by
+  have h1 := (syncCounters_ok c h.rootReg).typed k hk
+  have h2 := h.typed k hk
+  have hg : c.syncCounters.gcMark = c.gcMark := by unfold Cnr.syncCounters; split <;> rfl
+  have hr : c.syncCounters.recs = c.recs := by unfold Cnr.syncCounters; split <;> rfl
+  rw [h1, h2, hg, hr]
+
 /-- **Every reachable state of a history of valid objects satisfies the counter invariant.** -/
 theorem run_ctrOK (ops : List Op) (hv : ∀ o ∈ ops, ValidOp o) : DBCtrOK (run ops).db := by
   unfold run
@@ -210,6 +241,7 @@ theorem run_ctrOK (ops : List Op) (hv : ∀ o ∈ ops, ValidOp o) : DBCtrOK (run
     | deleteCnr cn => exact ih _ hvs (dbDeleteContainer_wf s.db hwf cn) (dbDeleteCnr_ok s.db hok cn)
     | delete cn ids => exact ih _ hvs (dbDelete_wf s.db hwf cn ids) (dbDelete_ok s.db hwf hok cn ids)
     | revive cn id => exact ih _ hvs (dbRevive_wf s.db hwf cn id) (dbRevive_ok s.db hwf hok cn id)
+    | syncCounters => exact ih _ hvs (dbSyncCounters_wf s.db hwf) (dbSyncCounters_ok s.db hok)
 
 /-- the typed counters as the statement defines them: number of indexed objects of each kind in live
 containers -/
